@@ -15,7 +15,7 @@ The stateless twin of HashLM (same table, evaluated from scratch) is
 """
 from ..oracles import c04_hashtable as HT
 
-RUNAWAY_CAP = 80
+RUNAWAY_CAP = 200
 _CLASSES = {}
 
 
